@@ -41,7 +41,8 @@ Inductive tev :=
   | TWrite (mode : Z) (on : bool)
   | TFilter (ks : list key) | TKeypress (c : Z) | TMouse (b col row : Z) | TUnhandled (k : key)
   | TAlarm (id : Z) | TPipe (id data : Z) | TFile (id : Z) | TRender | TQuit
-  | TGetInput | TTimeouts (sec : bool) | TPStart | TPStop.
+  | TGetInput | TTimeouts (sec : bool) | TPStart | TPStop
+  | TWait.                        (* the event loop is about to block: the next scripted round arrives *)
 
 Record config := Config {
   c_hook : bool;                 (* the screen has hook_event_loop (raw_display) / has not (plain) *)
@@ -88,7 +89,12 @@ Record st := St {
   connected : bool;              (* INPUT_DESCRIPTORS_CHANGED connected to _reset_input_descriptors *)
   idle_reg : bool;               (* MainLoop.idle_handle registered with the event loop *)
   hooked : bool;                 (* the screen's watches are registered with the event loop *)
-  alarms : list alarm            (* event_loop._alarms, all due, in firing order *)
+  alarms : list alarm;           (* event_loop._alarms, all due, in firing order *)
+  wstate : Z;                    (* the widget's state: how many inputs it handled so far; an unchanged widget
+                                    hands draw_screen the very same canvas object again (canvas cache) *)
+  buf_ok : bool;                 (* Screen.screen_buf is not None *)
+  buf_canvas : option Z          (* Screen._screen_buf_canvas: the canvas painted last (its widget state);
+                                    None: nothing yet, or a canvas object that is never handed out again *)
 }.
 
 Inductive res (A : Type) := ROk (a : A) | RErr (e : exn).
@@ -112,21 +118,27 @@ Definition suppress_exit (m : M unit) : M unit :=
 
 (* state updates *)
 Definition emit (t : tev) : M unit :=
-  fun s => (ROk tt, St (n s) (t :: tr s) (scr s) (tm s) (size_known s) (connected s) (idle_reg s) (hooked s) (alarms s)).
+  fun s => (ROk tt, St (n s) (t :: tr s) (scr s) (tm s) (size_known s) (connected s) (idle_reg s) (hooked s) (alarms s) (wstate s) (buf_ok s) (buf_canvas s)).
 Definition upd_scr (f : screen -> screen) : M unit :=
-  fun s => (ROk tt, St (n s) (tr s) (f (scr s)) (tm s) (size_known s) (connected s) (idle_reg s) (hooked s) (alarms s)).
+  fun s => (ROk tt, St (n s) (tr s) (f (scr s)) (tm s) (size_known s) (connected s) (idle_reg s) (hooked s) (alarms s) (wstate s) (buf_ok s) (buf_canvas s)).
 Definition upd_tm (f : term -> term) : M unit :=
-  fun s => (ROk tt, St (n s) (tr s) (scr s) (f (tm s)) (size_known s) (connected s) (idle_reg s) (hooked s) (alarms s)).
+  fun s => (ROk tt, St (n s) (tr s) (scr s) (f (tm s)) (size_known s) (connected s) (idle_reg s) (hooked s) (alarms s) (wstate s) (buf_ok s) (buf_canvas s)).
 Definition set_size_known (b : bool) : M unit :=
-  fun s => (ROk tt, St (n s) (tr s) (scr s) (tm s) b (connected s) (idle_reg s) (hooked s) (alarms s)).
+  fun s => (ROk tt, St (n s) (tr s) (scr s) (tm s) b (connected s) (idle_reg s) (hooked s) (alarms s) (wstate s) (buf_ok s) (buf_canvas s)).
 Definition set_connected (b : bool) : M unit :=
-  fun s => (ROk tt, St (n s) (tr s) (scr s) (tm s) (size_known s) b (idle_reg s) (hooked s) (alarms s)).
+  fun s => (ROk tt, St (n s) (tr s) (scr s) (tm s) (size_known s) b (idle_reg s) (hooked s) (alarms s) (wstate s) (buf_ok s) (buf_canvas s)).
 Definition set_idle_reg (b : bool) : M unit :=
-  fun s => (ROk tt, St (n s) (tr s) (scr s) (tm s) (size_known s) (connected s) b (hooked s) (alarms s)).
+  fun s => (ROk tt, St (n s) (tr s) (scr s) (tm s) (size_known s) (connected s) b (hooked s) (alarms s) (wstate s) (buf_ok s) (buf_canvas s)).
 Definition set_hooked (b : bool) : M unit :=
-  fun s => (ROk tt, St (n s) (tr s) (scr s) (tm s) (size_known s) (connected s) (idle_reg s) b (alarms s)).
+  fun s => (ROk tt, St (n s) (tr s) (scr s) (tm s) (size_known s) (connected s) (idle_reg s) b (alarms s) (wstate s) (buf_ok s) (buf_canvas s)).
 Definition set_alarms (l : list alarm) : M unit :=
-  fun s => (ROk tt, St (n s) (tr s) (scr s) (tm s) (size_known s) (connected s) (idle_reg s) (hooked s) l).
+  fun s => (ROk tt, St (n s) (tr s) (scr s) (tm s) (size_known s) (connected s) (idle_reg s) (hooked s) l (wstate s) (buf_ok s) (buf_canvas s)).
+Definition set_wstate (v : Z) : M unit :=
+  fun s => (ROk tt, St (n s) (tr s) (scr s) (tm s) (size_known s) (connected s) (idle_reg s) (hooked s) (alarms s) v (buf_ok s) (buf_canvas s)).
+Definition set_buf_ok (b : bool) : M unit :=
+  fun s => (ROk tt, St (n s) (tr s) (scr s) (tm s) (size_known s) (connected s) (idle_reg s) (hooked s) (alarms s) (wstate s) b (buf_canvas s)).
+Definition set_buf_canvas (o : option Z) : M unit :=
+  fun s => (ROk tt, St (n s) (tr s) (scr s) (tm s) (size_known s) (connected s) (idle_reg s) (hooked s) (alarms s) (wstate s) (buf_ok s) o).
 Definition get {A} (f : st -> A) : M A := fun s => (ROk (f s), s).
 
 Definition set_started b (x : screen) := Screen b (s_mouse_enabled x) (s_altbuf x) (s_old_tios x) (s_prev_winch x) (s_prev_tstp x) (s_prev_cont x).
@@ -182,7 +194,7 @@ Variable p : list (Z * fault).
 (* one invocation of a user callback: trace it, take the next index, fault if planned *)
 Definition cb (t : tev) : M unit :=
   fun s =>
-    let s' := St (n s + 1) (t :: tr s) (scr s) (tm s) (size_known s) (connected s) (idle_reg s) (hooked s) (alarms s) in
+    let s' := St (n s + 1) (t :: tr s) (scr s) (tm s) (size_known s) (connected s) (idle_reg s) (hooked s) (alarms s) (wstate s) (buf_ok s) (buf_canvas s) in
     match plan_at p (n s) with
     | None => (ROk tt, s')
     | Some f => (RErr (exn_of f), s')
@@ -248,7 +260,7 @@ Definition raw_start : M unit :=
   mouse_tracking en.
 
 (* Screen.clear *)
-Definition screen_clear : M unit := emit TClear.
+Definition screen_clear : M unit := emit TClear ;;; set_buf_ok false.      (* self.screen_buf = None *)
 
 (* Screen._stop_mouse_restore_buffer *)
 Definition stop_mouse_restore_buffer : M unit :=
@@ -291,12 +303,20 @@ Definition screen_stop : M unit :=
 (* Screen.get_cols_rows *)
 Definition get_cols_rows : M unit := emit TColsRows.
 
-(* Screen.draw_screen(size, canvas): HIDE_CURSOR ... SHOW_CURSOR iff the canvas has a cursor *)
+(* Screen.draw_screen(size, canvas): HIDE_CURSOR ... SHOW_CURSOR iff the canvas has a cursor;
+   self.screen_buf = sb; self._screen_buf_canvas = canvas *)
 Definition screen_draw_screen : M unit :=
   emit TDraw ;;;
   if c_hook c then
     st0 <- get (fun s => s_started (scr s)) ;;
-    if st0 then write_mode 25 false ;;; (if w_cursor c then write_mode 25 true else ret tt)
+    if st0 then
+      (* `if self.screen_buf and canvas is self._screen_buf_canvas: return`: nothing changed.
+         PopUpTarget wraps the widget's canvas into a new CompositeCanvas at every render. *)
+      ok <- get buf_ok ;; bc <- get buf_canvas ;; ws <- get wstate ;;
+      if ok && negb (c_pop_ups c) && (match bc with Some k => k =? ws | None => false end) then ret tt
+      else
+        write_mode 25 false ;;; (if w_cursor c then write_mode 25 true else ret tt) ;;;
+        set_buf_ok true ;;; set_buf_canvas (if c_pop_ups c then None else Some ws)
     else raise (PyErr 2)                 (* RuntimeError *)
   else ret tt.
 
@@ -305,16 +325,24 @@ Definition screen_draw_screen : M unit :=
 Definition update_overlay : M unit := if c_pop_ups c then cb TRender else ret tt.
 
 (* _topmost_widget.keypress(size, key): returns the code of the returned key, 0 for None *)
+Definition widget_changed : M unit := ws <- get wstate ;; set_wstate (ws + 1).
 Definition topmost_keypress (k : Z) : M Z :=
-  update_overlay ;;; cb (TKeypress k) ;;; ret (assoc_default (w_keys c) k k).
+  update_overlay ;;; cb (TKeypress k) ;;;
+  (if assoc_default (w_keys c) k k =? 0 then widget_changed else ret tt) ;;;
+  ret (assoc_default (w_keys c) k k).
+
+Definition widget_mouse_event (b col row : Z) : M bool :=
+  cb (TMouse b col row) ;;;
+  (if memz b (w_mouse c) then widget_changed else ret tt) ;;;
+  ret (memz b (w_mouse c)).
 
 (* hasattr(_topmost_widget, "mouse_event") and _topmost_widget.mouse_event(...) *)
 Definition topmost_mouse_event (b col row : Z) : M bool :=
   if c_pop_ups c then
     update_overlay ;;;
-    if w_has_mouse c then cb (TMouse b col row) ;;; ret (memz b (w_mouse c))
+    if w_has_mouse c then widget_mouse_event b col row
     else raise (PyErr 1)                 (* PopUpTarget forwards to a widget without mouse_event *)
-  else if w_has_mouse c then cb (TMouse b col row) ;;; ret (memz b (w_mouse c))
+  else if w_has_mouse c then widget_mouse_event b col row
   else ret false.
 
 (* _topmost_widget.render(screen_size, focus=True) *)
@@ -415,7 +443,7 @@ Definition fire_alarm (a : alarm) : M unit :=
 Definition deliver (e : event) : M unit :=
   match e with
   | EInput ks => update ks              (* the screen's watch callback parses and calls _update *)
-  | EResize => update [KResize]
+  | EResize => set_buf_ok false ;;; update [KResize]      (* _sigwinch_handler: self.screen_buf = None *)
   | EAlarm id => cb (TAlarm id)
   | EPipe id d => cb (TPipe id d)
   | EFile id => cb (TFile id)
@@ -423,7 +451,7 @@ Definition deliver (e : event) : M unit :=
 
 (* one scripted round: the events that arrived while the loop waited, then the idle callbacks *)
 Definition do_round (r : list event) : M unit :=
-  for_each deliver r ;;; entering_idle.
+  for_each deliver r ;;; entering_idle ;;; emit TWait.
 
 (* the harness ends every session with an alarm raising ExitMainLoop *)
 Definition quit : M unit := emit TQuit ;;; raise ExitMainLoop.
@@ -434,6 +462,7 @@ Definition event_loop_run (rounds : list (list event)) : M unit :=
     al <- get alarms ;; set_alarms [] ;;;
     for_each fire_alarm al ;;;
     entering_idle ;;;
+    emit TWait ;;;
     for_each do_round rounds ;;;
     quit).
 
@@ -511,7 +540,7 @@ End WithConfig.
 Definition normal_term (tios : Z) (w t cn : Z) : term :=
   Term false true false false false false false (tios, false) w t cn false.
 Definition fresh_screen : screen := Screen false false false None None None None.
-Definition init_st (t : term) : st := St 0 [] fresh_screen t false false false false [].
+Definition init_st (t : term) : st := St 0 [] fresh_screen t false false false false [] 0 false None.
 
 (* ---------- wire format ----------
    case  = hook, filter [0 | 1 n codes..], unhandled [0 _ | 1 r], handle_mouse, pop_ups, paste, focus, isatty,
@@ -568,7 +597,7 @@ Definition enc_tev (t : tev) : list Z :=
   | TFilter ks => 10 :: zlen ks :: flat_map enc_key ks
   | TKeypress x => [11; x] | TMouse b cl rw => [12; b; cl; rw] | TUnhandled k => 13 :: enc_key k
   | TAlarm i => [14; i] | TPipe i d => [15; i; d] | TFile i => [16; i] | TRender => [17] | TQuit => [18]
-  | TGetInput => [19] | TTimeouts b => [20; enc_bool b] | TPStart => [21] | TPStop => [22]
+  | TGetInput => [19] | TTimeouts b => [20; enc_bool b] | TPStart => [21] | TPStop => [22] | TWait => [23]
   end.
 Definition enc_item (t : tev) : list Z := let e := enc_tev t in zlen e :: e.
 
